@@ -473,12 +473,249 @@ fn cmd_paging(n: usize) -> i32 {
     0
 }
 
+// ------------------------------------------------------------------------------------------------
+// lifecycle histories over a small pool of names: namespaces as maps (C10), deletion consistency (C11),
+// global id uniqueness (C09), fan-out to exactly the attached subscriptions (C01), listing order (C13)
+#[derive(Clone, Debug)]
+enum LOp { CreateTopic(usize), DeleteTopic(usize, bool), CreateSub(usize, usize, bool), RaceCreateSub(usize, usize), DeleteSub(usize), Publish(usize, u8), DropHandles }
+fn lop_json(o: &LOp) -> String {
+    match o {
+        LOp::CreateTopic(t) => format!("[\"create_topic\",{}]", t),
+        LOp::DeleteTopic(t, keep) => format!("[\"delete_topic\",{},{}]", t, keep),
+        LOp::CreateSub(s, t, cross) => format!("[\"create_sub\",{},{},{}]", s, t, cross),
+        LOp::RaceCreateSub(s, t) => format!("[\"race_create_sub\",{},{}]", s, t),
+        LOp::DeleteSub(s) => format!("[\"delete_sub\",{}]", s),
+        LOp::Publish(t, n) => format!("[\"publish\",{},{}]", t, n),
+        LOp::DropHandles => "[\"drop_handles\"]".to_string(),
+    }
+}
+fn lops_json(v: &[LOp]) -> String { format!("[{}]", v.iter().map(lop_json).collect::<Vec<_>>().join(",")) }
+fn parse_lops(s: &str) -> Vec<LOp> {
+    let mut out = Vec::new();
+    for part in s.split("],[") {
+        let p: Vec<String> = part.replace('[', "").replace(']', "").replace('"', "").split(',').map(|x| x.trim().to_string()).collect();
+        let n = |i: usize| p.get(i).map(|x| x.parse::<usize>().unwrap_or(0)).unwrap_or(0);
+        let b = |i: usize| p.get(i).map(|x| x == "true").unwrap_or(false);
+        match p[0].as_str() {
+            "create_topic" => out.push(LOp::CreateTopic(n(1))),
+            "delete_topic" => out.push(LOp::DeleteTopic(n(1), b(2))),
+            "create_sub" => out.push(LOp::CreateSub(n(1), n(2), b(3))),
+            "race_create_sub" => out.push(LOp::RaceCreateSub(n(1), n(2))),
+            "delete_sub" => out.push(LOp::DeleteSub(n(1))),
+            "publish" => out.push(LOp::Publish(n(1), n(2) as u8)),
+            "drop_handles" => out.push(LOp::DropHandles),
+            _ => {}
+        }
+    }
+    out
+}
+struct TRec { alive: bool, subs: Vec<usize>, order: u64 }
+struct SRec { alive: bool, backlog: usize, order: u64, topic: usize, topic_gen: u64 }
+
+async fn run_lifecycle(ops: &[LOp]) -> Result<(), Fail> {
+    let tm = TopicManager::new();
+    let sm = SubscriptionManager::new(Default::default());
+    let tname = |i: usize| TopicName::new("p", &format!("t{}", i));
+    let sname = |i: usize, cross: bool| SubscriptionName::new(if cross { "q" } else { "p" }, &format!("s{}", i));
+    let mut topics: Vec<TRec> = (0..2).map(|_| TRec { alive: false, subs: Vec::new(), order: 0 }).collect();
+    let mut tgen: Vec<u64> = vec![0, 0];
+    let mut subs: Vec<SRec> = (0..3).map(|_| SRec { alive: false, backlog: 0, order: 0, topic: 0, topic_gen: 0 }).collect();
+    let mut clock = 0u64;
+    let mut all_ids: Vec<u64> = Vec::new();
+    let mut held: Vec<Arc<Topic>> = Vec::new();
+    for (k, op) in ops.iter().enumerate() {
+        let fail = |prop: &'static str, what: String| Err(Fail { prop, what: format!("step {} {}: {}", k, lop_json(op), what) });
+        clock += 1;
+        match op {
+            LOp::CreateTopic(t) => {
+                let r = tm.create_topic(tname(*t));
+                if r.is_ok() == topics[*t].alive { return fail("C10", format!("create topic returned {} although the name is {}", if r.is_ok() { "Ok" } else { "an error" }, if topics[*t].alive { "present" } else { "absent" })); }
+                if r.is_ok() { topics[*t] = TRec { alive: true, subs: Vec::new(), order: clock }; tgen[*t] += 1; }
+            }
+            LOp::DeleteTopic(t, keep) => {
+                if let Ok(h) = tm.get_topic(&tname(*t)) {
+                    if !topics[*t].alive { return fail("C10", "get_topic found a deleted / never created topic".into()); }
+                    if h.delete().await.is_err() { return fail("C11", "DeleteTopic failed".into()); }
+                    topics[*t].alive = false;
+                    topics[*t].subs.clear();
+                    if *keep { held.push(h); }
+                } else if topics[*t].alive { return fail("C10", "get_topic does not find a live topic".into()); }
+                if tm.get_topic(&tname(*t)).is_ok() { return fail("C10", "topic still present after DeleteTopic returned".into()); }
+            }
+            LOp::CreateSub(s, t, cross) => {
+                if let Ok(h) = tm.get_topic(&tname(*t)) {
+                    let info = SubscriptionInfo::new_with_defaults(sname(*s, *cross));
+                    let r = sm.create_subscription(info, Arc::clone(&h)).await;
+                    if *cross {
+                        if r.is_ok() { return fail("C10", "subscription created in another project than its topic".into()); }
+                        if sm.get_subscription(&sname(*s, true)).is_ok() { return fail("C10", "failed create left a subscription behind".into()); }
+                    } else {
+                        if r.is_ok() == subs[*s].alive { return fail("C10", format!("create subscription returned {} although the name is {}", if r.is_ok() { "Ok" } else { "an error" }, if subs[*s].alive { "present" } else { "absent" })); }
+                        if r.is_ok() { subs[*s] = SRec { alive: true, backlog: 0, order: clock, topic: *t, topic_gen: tgen[*t] }; topics[*t].subs.push(*s); }
+                    }
+                }
+            }
+            LOp::RaceCreateSub(s, t) => {
+                if let Ok(h) = tm.get_topic(&tname(*t)) {
+                    let a = sm.create_subscription(SubscriptionInfo::new_with_defaults(sname(*s, false)), Arc::clone(&h));
+                    let b = sm.create_subscription(SubscriptionInfo::new_with_defaults(sname(*s, false)), Arc::clone(&h));
+                    let (ra, rb) = tokio::join!(a, b);
+                    let oks = ra.is_ok() as usize + rb.is_ok() as usize;
+                    let want = if subs[*s].alive { 0 } else { 1 };
+                    if oks != want { return fail("C10", format!("two racing creates of one name: {} succeeded, expected {}", oks, want)); }
+                    if oks == 1 { subs[*s] = SRec { alive: true, backlog: 0, order: clock, topic: *t, topic_gen: tgen[*t] }; topics[*t].subs.push(*s); }
+                }
+            }
+            LOp::DeleteSub(s) => {
+                match sm.get_subscription(&sname(*s, false)) {
+                    Ok(h) => {
+                        if !subs[*s].alive { return fail("C10", "get_subscription found a deleted / never created subscription".into()); }
+                        let r = h.delete().await;
+                        if r.is_err() { return fail("C11", "DeleteSubscription returned an error".into()); }
+                        subs[*s].alive = false;
+                        let t = subs[*s].topic;
+                        topics[t].subs.retain(|x| x != s);
+                        if sm.get_subscription(&sname(*s, false)).is_ok() { return fail("C11", "subscription still registered after DeleteSubscription returned OK".into()); }
+                    }
+                    Err(_) => { if subs[*s].alive { return fail("C10", "get_subscription does not find a live subscription".into()); } }
+                }
+            }
+            LOp::Publish(t, n) => {
+                if let Ok(h) = tm.get_topic(&tname(*t)) {
+                    let msgs = (0..*n).map(|i| TopicMessage::new(Bytes::from(vec![i]), None)).collect::<Vec<_>>();
+                    let resp = match h.publish_messages(msgs).await { Ok(r) => r, Err(_) => return fail("C01", "publish to a live topic failed".into()) };
+                    if resp.message_ids.len() != *n as usize { return fail("C08", "wrong number of message ids".into()); }
+                    for id in resp.message_ids {
+                        if all_ids.contains(&id.value) { return fail("C09", format!("message id {} was already issued to another message", id.value)); }
+                        all_ids.push(id.value);
+                    }
+                    for s in topics[*t].subs.clone() { subs[s].backlog += *n as usize; }
+                }
+            }
+            LOp::DropHandles => { held.clear(); }
+        }
+        // ---- observable state after every step
+        for (i, sr) in subs.iter().enumerate() {
+            if !sr.alive { continue; }
+            let h = match sm.get_subscription(&sname(i, false)) { Ok(h) => h, Err(_) => return fail("C10", format!("live subscription s{} not found", i)) };
+            let st = h.get_stats().await.map_err(|_| Fail { prop: "C11", what: "stats of a live subscription failed".into() })?;
+            if st.backlog_messages_count + st.outstanding_messages_count != sr.backlog {
+                let live_topic = topics[sr.topic].alive && tgen[sr.topic] == sr.topic_gen;
+                return fail(if live_topic { "C01" } else { "C11" }, format!("subscription s{} holds {} messages, expected {}", i, st.backlog_messages_count + st.outstanding_messages_count, sr.backlog));
+            }
+        }
+        let mut want_t: Vec<(u64, String)> = topics.iter().enumerate().filter(|(_, t)| t.alive).map(|(i, t)| (t.order, tname(i).to_string())).collect();
+        want_t.sort();
+        let got_t: Vec<String> = tm.list_topics(Box::from("p"), Paging::new(0, None)).map_err(|_| Fail { prop: "C13", what: "list_topics failed".into() })?.topics.iter().map(|t| t.name.to_string()).collect();
+        if got_t != want_t.iter().map(|x| x.1.clone()).collect::<Vec<_>>() { return fail("C13", format!("ListTopics = {:?}, expected {:?}", got_t, want_t)); }
+        let mut want_s: Vec<(u64, String)> = subs.iter().enumerate().filter(|(_, s)| s.alive).map(|(i, s)| (s.order, sname(i, false).to_string())).collect();
+        want_s.sort();
+        let got_s: Vec<String> = sm.list_subscriptions_in_project(Box::from("p"), Paging::new(0, None)).map_err(|_| Fail { prop: "C13", what: "list failed".into() })?.subscriptions.iter().map(|t| t.name.to_string()).collect();
+        if got_s != want_s.iter().map(|x| x.1.clone()).collect::<Vec<_>>() { return fail("C13", format!("ListSubscriptions = {:?}, expected {:?}", got_s, want_s)); }
+        for (i, t) in topics.iter().enumerate() {
+            if !t.alive { continue; }
+            let h = tm.get_topic(&tname(i)).map_err(|_| Fail { prop: "C10", what: "live topic not found".into() })?;
+            let mut want: Vec<(u64, String)> = t.subs.iter().map(|s| (subs[*s].order, sname(*s, false).to_string())).collect();
+            want.sort();
+            let got: Vec<String> = match h.list_subscriptions(Paging::new(0, None)).await { Ok(p) => p.subscriptions.iter().map(|s| s.name.to_string()).collect(), Err(_) => return fail("C11", "ListTopicSubscriptions of a live topic failed".into()) };
+            if got != want.iter().map(|x| x.1.clone()).collect::<Vec<_>>() { return fail("C11", format!("ListTopicSubscriptions(t{}) = {:?}, expected {:?}", i, got, want)); }
+        }
+    }
+    Ok(())
+}
+fn gen_lops(rng: &mut Rng, steps: usize) -> Vec<LOp> {
+    (0..steps).map(|_| match rng.below(14) {
+        0 | 1 | 2 => LOp::CreateTopic(rng.below(2) as usize),
+        3 => LOp::DeleteTopic(rng.below(2) as usize, rng.below(2) == 0),
+        4 | 5 | 6 => LOp::CreateSub(rng.below(3) as usize, rng.below(2) as usize, rng.below(6) == 0),
+        7 => LOp::RaceCreateSub(rng.below(3) as usize, rng.below(2) as usize),
+        8 | 9 => LOp::DeleteSub(rng.below(3) as usize),
+        10 | 11 | 12 => LOp::Publish(rng.below(2) as usize, 1 + rng.below(2) as u8),
+        _ => LOp::DropHandles,
+    }).collect()
+}
+fn cmd_lifecycle(seed: u64, iters: usize, steps: usize) -> i32 {
+    let mut rng = Rng(seed.wrapping_mul(0x9E3779B97F4A7C15) | 1);
+    for it in 0..iters {
+        let ops = gen_lops(&mut rng, steps);
+        if let Err(e) = rt().block_on(run_lifecycle(&ops)) {
+            let mut cur = ops.clone();
+            let mut i = 0;
+            while i < cur.len() {
+                let mut t = cur.clone();
+                t.remove(i);
+                match rt().block_on(run_lifecycle(&t)) { Err(f) if f.prop == e.prop => { cur = t; } _ => { i += 1; } }
+            }
+            let e2 = rt().block_on(run_lifecycle(&cur)).err().unwrap_or(e);
+            println!("WITNESS {{\"kind\":\"lifecycle\",\"property\":\"{}\",\"ops\":{},\"observed\":{:?},\"iteration\":{}}}", e2.prop, lops_json(&cur), e2.what, it);
+            return 1;
+        }
+    }
+    println!("NO-WITNESS lifecycles={} steps={}", iters, steps);
+    0
+}
+
+// ------------------------------------------------------------------------------------------------
+// C08: concurrent publishers on a multi-threaded runtime: ids are issued in acceptance order and every
+// subscription's first deliveries follow id order, each request contiguous
+async fn run_order(publishers: usize, per_request: usize) -> Result<(), Fail> {
+    let tm = TopicManager::new();
+    let sm = SubscriptionManager::new(Default::default());
+    let topic = tm.create_topic(TopicName::new("p", "t")).map_err(|_| Fail { prop: "SETUP", what: "create".into() })?;
+    let mut subs = Vec::new();
+    for i in 0..2 {
+        subs.push(sm.create_subscription(SubscriptionInfo::new_with_defaults(SubscriptionName::new("p", &format!("s{}", i))), Arc::clone(&topic)).await.map_err(|_| Fail { prop: "SETUP", what: "create sub".into() })?);
+    }
+    let mut handles = Vec::new();
+    for p in 0..publishers {
+        let t = Arc::clone(&topic);
+        handles.push(tokio::spawn(async move {
+            let msgs = (0..per_request).map(|i| TopicMessage::new(Bytes::from(vec![p as u8, i as u8]), None)).collect::<Vec<_>>();
+            t.publish_messages(msgs).await.map(|r| r.message_ids.iter().map(|x| x.value).collect::<Vec<u64>>())
+        }));
+    }
+    let mut requests: Vec<Vec<u64>> = Vec::new();
+    for h in handles { requests.push(h.await.map_err(|_| Fail { prop: "SETUP", what: "join".into() })?.map_err(|_| Fail { prop: "C01", what: "publish failed".into() })?); }
+    for r in requests.iter() { for w in r.windows(2) { if w[1] != w[0] + 1 { return Err(Fail { prop: "C08", what: format!("ids of one request not consecutive: {:?}", r) }); } } }
+    for (si, s) in subs.iter().enumerate() {
+        let mut got = Vec::new();
+        loop {
+            let p = s.pull_messages(1000).await.map_err(|_| Fail { prop: "SETUP", what: "pull".into() })?;
+            if p.is_empty() { break; }
+            got.extend(p.iter().map(|m| m.message().id.value));
+        }
+        if got.len() != publishers * per_request { return Err(Fail { prop: "C01", what: format!("subscription {} received {} of {} messages", si, got.len(), publishers * per_request) }); }
+        for w in got.windows(2) { if w[1] <= w[0] { return Err(Fail { prop: "C08", what: format!("subscription {}: first deliveries {:?} not in id order", si, got) }); } }
+    }
+    Ok(())
+}
+fn cmd_order(rounds: usize) -> i32 {
+    let rt = tokio::runtime::Builder::new_multi_thread().worker_threads(2).enable_all().build().unwrap();
+    for r in 0..rounds {
+        if let Err(e) = rt.block_on(run_order(2 + r % 3, 3)) {
+            println!("WITNESS {{\"kind\":\"order\",\"property\":\"{}\",\"publishers\":{},\"observed\":{:?},\"round\":{}}}", e.prop, 2 + r % 3, e.what, r);
+            return 1;
+        }
+    }
+    println!("NO-WITNESS order rounds={}", rounds);
+    0
+}
+
 fn main() {
     let args: Vec<String> = std::env::args().collect();
     let code = match args.get(1).map(|s| s.as_str()) {
         Some("history") => cmd_history(args[2].parse().unwrap(), args[3].parse().unwrap(), args[4].parse().unwrap()),
         Some("names") => cmd_names(args[2].parse().unwrap()),
         Some("paging") => cmd_paging(args[2].parse().unwrap()),
+        Some("lifecycle") => cmd_lifecycle(args[2].parse().unwrap(), args[3].parse().unwrap(), args[4].parse().unwrap()),
+        Some("order") => cmd_order(args[2].parse().unwrap()),
+        Some("run-lifecycle") => {
+            let ops = parse_lops(&args[2]);
+            match rt().block_on(run_lifecycle(&ops)) {
+                Ok(()) => { println!("NO-WITNESS lifecycle replays without divergence"); 0 }
+                Err(e) => { println!("WITNESS {{\"kind\":\"lifecycle\",\"property\":\"{}\",\"ops\":{},\"observed\":{:?}}}", e.prop, lops_json(&ops), e.what); 1 }
+            }
+        }
         Some("run-history") => {
             let d: u64 = args[2].parse().unwrap();
             let ops = parse_ops(&args[3]);
